@@ -17,6 +17,7 @@ import Drivers.Par
 import Drivers.Interp
 import Drivers.Gradation
 import Drivers.Subdiv
+import Drivers.Collapse
 
 /-! `refdrv <driver> [args]` : dispatch to a line-protocol driver. One match arm per driver, on one line. -/
 
@@ -39,6 +40,7 @@ def main (args : List String) : IO UInt32 := do
   | "interp" :: rest => Drivers.Interp.run rest
   | "gradation" :: rest => Drivers.Gradation.run rest
   | "subdiv" :: rest => Drivers.Subdiv.run rest
+  | "collapse" :: rest => Drivers.Collapse.run rest
   | _ =>
     IO.eprintln s!"refdrv: unknown driver {args}"
     return 2
